@@ -217,3 +217,21 @@ for cls_ in ("ContinuousMultiVariable", "DiscreteMultiVariable", "MultiObjective
              properties=["C13", "C14"])
     contract(M + cls_ + ".get", returns="list[Variable]",
              ensures=[("children", "result is self._children")], properties=["C14"])
+
+# ---- the seven classes refine the abstract structure contract of Variable (size / has_children / get), C14 ----------------------
+# Object invariants assumed at entry (established by the constructors; checked by the law campaign): var_wf(self); a leaf class
+# has no children; the size of a composite is the length of the list it was declared with.
+LEAF = ["var_wf(self)", "not kids(self)"]
+COMP = ["var_wf(self)", "kids(self)"]
+for cls_ in ("ContinuousVariable", "DiscreteVariable", "PermutationVariable"):
+    contract(M + cls_ + ".size", returns="int", entry_invariants=LEAF, ensures=[("size", "result == vsize(self) and result >= 1")], properties=["C14"])
+    contract(M + cls_ + ".has_children", returns="bool", entry_invariants=LEAF, ensures=[("kids", "result == kids(self)")], properties=["C14"])
+    contract(M + cls_ + ".get", returns="Variable", entry_invariants=LEAF, ensures=[("itself", "result is self and result is child(self, 0)")],
+             properties=["C14"])
+for cls_, size_inv in (("ContinuousMultiVariable", "len(self.lower_bounds) == vsize(self)"),
+                       ("MultiObjectiveVariable", "len(self.lower_bounds) == vsize(self)"),
+                       ("DiscreteMultiVariable", "len(self.choices) == vsize(self)"),
+                       ("BinaryVariable", "self.n_vars == vsize(self)")):
+    contract(M + cls_ + ".size", returns="int", entry_invariants=COMP + [size_inv, "vsize(self) >= 1"],
+             ensures=[("size", "result == vsize(self) and result >= 1")], properties=["C14"])
+    contract(M + cls_ + ".has_children", returns="bool", entry_invariants=COMP, ensures=[("kids", "result == kids(self)")], properties=["C14"])
